@@ -32,5 +32,23 @@ ConfsW2 == << Conf(<<3>>), Conf(<<2>>) >>
 Two == <<2>>
 Three == <<3>>
 Zero == <<>>
+\* C13 alphabets (scaled: 128 ~ 2^31, 255 ~ 2^32-1, 112 ~ 2^31-16, 111 ~ 2^31-17)
+AlphaWideDur ==
+  { [len |-> 1, dur |-> <<1>>,   cts |-> 0, sync |-> TRUE],
+    [len |-> 1, dur |-> <<127>>, cts |-> 0, sync |-> FALSE],
+    [len |-> 2, dur |-> <<128>>, cts |-> 1, sync |-> TRUE],
+    [len |-> 1, dur |-> <<255>>, cts |-> 0, sync |-> TRUE] }
+AlphaWideLen ==
+  { [len |-> 1,   dur |-> <<2>>, cts |-> 0, sync |-> TRUE],
+    [len |-> 111, dur |-> <<2>>, cts |-> 0, sync |-> TRUE],
+    [len |-> 112, dur |-> <<1>>, cts |-> 0, sync |-> FALSE],
+    [len |-> 128, dur |-> <<2>>, cts |-> 0, sync |-> TRUE] }
+AlphaPos ==
+  { [len |-> 1, dur |-> <<1>>, cts |-> 0, sync |-> TRUE],
+    [len |-> 2, dur |-> <<2>>, cts |-> 0, sync |-> FALSE],
+    [len |-> 0, dur |-> <<2>>, cts |-> 1, sync |-> TRUE] }
+Pos200 == <<200>>
+Pos215 == <<215>>                       \* 215 + ftyp 24 + 16 = 255: first chunk exactly at the last 32-bit offset
+Pos216 == <<216>>                       \* first chunk at offset 256 (scaled 2^32)
 Pos250 == <<250>>                       \* output that starts just below the (scaled) 32-bit limit
 ==============================================================================
